@@ -19,6 +19,18 @@ CFGS = {'quick': [{}, {'connect_retry_time': 10}], 'thorough': [{}, {'connect_re
 WALKS = {'quick': (64, 100), 'thorough': (1600, 200)}
 BUDGET = {'quick': 45, 'thorough': 700}
 
+# prefix-seeded exploration (states a search from boot reaches only at depth 8+): a session under a pending boot
+# timer, a stop / drop whose close has not completed yet, a restart on top of it
+PREFIXES = [
+    ['START', 'ACCEPT', 'OPEN', 'KA'],
+    ['TICK', 'ACCEPT', 'OPEN', 'KA', 'STOP'],
+    ['TICK', 'ACCEPT', 'OPEN', 'KA', 'NOTI_CEASE'],
+    ['TICK', 'ACCEPT', 'OPEN', 'KA', 'STOP', 'START'],
+    ['TICK', 'ACCEPT', 'OPEN', 'BADMARK', 'START'],
+    ['START', 'STOP', 'START'],
+]
+PREFIX_DEPTH = {'quick': 5, 'thorough': 7}
+
 
 def plan(tier, seed):
     shards = []
@@ -26,6 +38,10 @@ def plan(tier, seed):
     for ci, c in enumerate(CFGS[tier]):
         for p in range(PARTS[tier]):
             shards.append(dict(kind='bfs', time_opts=c, part=p, nparts=PARTS[tier], d0=d0, depth=d, budget=BUDGET[tier], defer=bool(ci == 0 and p % 2)))
+    for i, pre in enumerate(PREFIXES):
+        for c in CFGS['quick']:
+            shards.append(dict(kind='bfs', time_opts=c, part=0, nparts=1, d0=1, depth=PREFIX_DEPTH[tier], budget=BUDGET[tier],
+                               defer=bool((i + len(c)) % 2 == 0) or tier == 'thorough', start=[pre]))
     n, length = WALKS[tier]
     nshard = 2 if tier == 'quick' else 16
     for i in range(nshard):
@@ -85,12 +101,14 @@ def run_shard(sh):
             grab(r)
 
         ex = S.bfs_shard(cfg, [StopMonitor], S.ALPHABET_SMALL, sh['d0'], sh['depth'], sh['part'], sh['nparts'],
-                         multi=True, on_state=on_state, time_budget=sh['budget'], on_run=note)
+                         multi=True, on_state=on_state, time_budget=sh['budget'], on_run=note, start=sh.get('start'))
         viol.update({k: v for k, v in ex.viol.items() if k not in viol})
         res['evaluations'] = ex.execs
         res['distinct'] = ['%s|%d' % (sorted(sh['time_opts'].items()), hash(k)) for k in ex.seen]
         res['counters'] = dict(executed_sequences=ex.execs, executed_events=ex.events, states=len(ex.seen),
                                truncated_shards=int(ex.truncated), **stats)
+        if sh.get('start'):
+            res['counters']['prefix_seeded_sequences'] = ex.execs
         res['maxima'] = dict(depth_reached=ex.depth_reached)
         if sh['part'] == 0:
             res['samples'] = [dict(cfg=sh['time_opts'], events=list(s)) for s in list(ex.seen.values())[-2:]]
